@@ -4,7 +4,7 @@ from __future__ import annotations
 
 import ast
 
-from ..engine.match import dotted, norm, func_body_stmts, string_value
+from ..engine.match import dotted, norm, func_body_stmts, string_value, leaves_with
 from ..engine.srcmodel import AnalysisError, Func
 
 EXPLANATION = (
@@ -38,7 +38,8 @@ UTILS = "dagrt.codegen.utils"
 def check(run, P):
     run.rule("C20.lexer", "default tokeniser splits at whitespace outside quoted "
              "strings only, wherever the string starts, and interprets no comment "
-             "characters", minimum=1)
+             "characters; the Python wrapper's lexer honours backslash escapes, the "
+             "Fortran wrapper's has none", minimum=3)
     run.rule("C20.once", "each word is concatenated exactly once on every feasible "
              "path of the loop body, with separator / continuation indentation",
              minimum=3)
@@ -60,9 +61,9 @@ def _lexer(run, P, f: Func):
     dflt = None
     for n in ast.walk(f.node):
         if isinstance(n, ast.If) and norm(n.test) == "lex_func is None" and n.body:
-            s = n.body[0]
-            if isinstance(s, ast.Assign):
-                dflt = s.value
+            for s in n.body:
+                if isinstance(s, ast.Assign) and dotted(s.targets[0]) == "lex_func":
+                    dflt = s.value
     if dflt is None:
         raise AnalysisError("wrap_line_base: default lexer not found")
     target = None
@@ -92,21 +93,50 @@ def _lexer(run, P, f: Func):
            construct=f"default lexer {target.name}: {why}",
            why="a blank inside a quoted string must never end a token, wherever the "
                "string starts; nothing but whitespace outside quotes separates tokens")
-    # the Fortran wrapper uses the same splitter without Python's escape character
-    m = P.module("dagrt.codegen.fortran")
-    w = m.assigns.get("wrap_line")
-    ok = False
-    if isinstance(w, ast.Call):
+    # which escape character each wrapper's lexer ends up with
+    esc_param = None
+    for a, d in zip(reversed(target.node.args.args), reversed(target.node.args.defaults)):
+        if isinstance(d, ast.Constant) and (d.value is None or isinstance(d.value, str)) \
+                and a.arg != target.params[0]:
+            esc_param = (a.arg, d.value)
+    if esc_param is None:
+        raise AnalysisError(f"{target.name}: escape-character parameter not found")
+
+    def effective(lex):
+        """(escape char, description) for a lex_func expression; None = inherits."""
+        if lex is None:
+            return effective(dflt)[0], "default"
+        if isinstance(lex, ast.Name):
+            t = P.resolve_name(f, lex.id)
+            if t is target or lex.id == target.name:
+                return esc_param[1], lex.id
+            return "?", norm(lex)
+        if isinstance(lex, ast.Call) and dotted(lex.func) in ("functools.partial", "partial") \
+                and lex.args and isinstance(lex.args[0], ast.Name) and lex.args[0].id == target.name:
+            kws = {k.arg: k.value for k in lex.keywords}
+            v = kws.get(esc_param[0])
+            if v is None:
+                return esc_param[1], norm(lex)
+            if isinstance(v, ast.Constant):
+                return v.value, norm(lex)
+        return "?", norm(lex)
+
+    for modname, want, lang in (("dagrt.codegen.python", "\\", "Python"),
+                                ("dagrt.codegen.fortran", None, "Fortran")):
+        m = P.module(modname)
+        w = m.assigns.get("wrap_line")
+        if not isinstance(w, ast.Call):
+            raise AnalysisError(f"{modname}: wrap_line is not a partial() call")
         kws = {k.arg: k.value for k in w.keywords}
-        lf = kws.get("lex_func")
-        if lf is None:
-            ok = True      # inherits the default
-        else:
-            src = ast.unparse(lf)
-            ok = target.name in src and "shlex" not in src
-    run.ob("C20.lexer", m, w, ok,
-           construct=f"Fortran wrap_line lexer: {norm(kws.get('lex_func')) if isinstance(w, ast.Call) and kws.get('lex_func') is not None else 'default'}",
-           why="the Fortran wrapper must honour quotes the same way")
+        got, desc = effective(kws.get("lex_func"))
+        run.ob("C20.lexer", m, w, got == want,
+               construct=f"{lang} wrap_line lexer: {desc}, escape character {got!r} (needs {want!r})",
+               why="Python string literals escape a quote with a backslash (repr() "
+                   "produces \\' for text holding both quote kinds): a lexer that "
+                   "does not know this ends the string early, cuts the literal at a "
+                   "blank, and the continuation lands inside the constant. Fortran "
+                   "has no escape character (a quote is doubled), so a backslash "
+                   "before a closing quote must not keep the string open")
 
 
 def _quote_machine(t: Func):
@@ -141,13 +171,27 @@ def _quote_machine(t: Func):
     opens = any(f"{qvar} = {ch}" in ast.unparse(c) and " in " in norm(c.test) for c in chain[1:])
     splits = [c for c in chain[1:] if "isspace()" in norm(c.test)]
     unterminated = any(isinstance(n, ast.If) and norm(n.test) == f"{qvar} is not None"
-                       and isinstance(n.body[0], ast.Raise) for n in t.node.body)
+                       and leaves_with(n.body, ast.Raise) for n in t.node.body)
     comment = any(isinstance(x, ast.Constant) and x.value == "#" for x in ast.walk(t.node))
-    ok = closes and no_split_in_quote and opens and len(splits) == 1 and unterminated and not comment
+    params = {a.arg for a in t.node.args.args}
+    esc = False
+    for n in ast.walk(chain[0]):
+        if isinstance(n, ast.If) and isinstance(n.test, ast.Compare) and len(n.test.ops) == 1 \
+                and isinstance(n.test.ops[0], ast.Eq) and dotted(n.test.left) == ch \
+                and isinstance(n.test.comparators[0], ast.Name) and n.test.comparators[0].id in params:
+            # the escape test takes precedence over the closing-quote test
+            later = "\n".join(ast.unparse(s_) for s_ in n.orelse)
+            consumes = any(isinstance(x, ast.Call) and dotted(x.func) == "next"
+                           for s_ in n.body for x in ast.walk(s_))
+            esc = consumes and f"{ch} == {qvar}" in later and f"{ch} == {qvar}" not in \
+                "\n".join(ast.unparse(s_) for s_ in n.body)
+    ok = closes and no_split_in_quote and opens and len(splits) == 1 and unterminated \
+        and not comment and esc
     return ok, (f"quote state '{qvar}': closes on the same quote={closes}, no split inside "
                 f"quotes={no_split_in_quote}, opens anywhere={opens}, splits on whitespace "
                 f"outside quotes={len(splits) == 1}, unterminated raises={unterminated}, "
-                f"no comment handling={not comment}")
+                f"no comment handling={not comment}, escaped character consumed before "
+                f"the closing-quote test={esc}")
 
 
 class _PathState:
@@ -382,6 +426,17 @@ def _use(run, P):
                     and norm(lp_.iter) == f"wrap_line({g.params[1]}, {lv[1]['V_l']})" \
                     and has(f"self._emitter({lp_.target.id})", lp_):
                 ok = True
+    emits = [x for x in ast.walk(g.node) if isinstance(x, ast.Call)
+             and dotted(x.func) == "self._emitter"]
+    for x in emits:
+        inside = [lp_ for lp_ in ast.walk(g.node) if isinstance(lp_, ast.For)
+                  and isinstance(lp_.target, ast.Name)
+                  and isinstance(lp_.iter, ast.Call) and dotted(lp_.iter.func) == "wrap_line"
+                  and any(y is x for y in ast.walk(lp_))
+                  and len(x.args) == 1 and dotted(x.args[0]) == lp_.target.id]
+        if not inside:
+            ok = False
     run.ob("C20.use", g, g.node, ok,
-           construct="_emit: wrap_line(line, class level + function level), every piece emitted",
+           construct="_emit: wrap_line(line, class level + function level), every piece emitted, "
+                     "nothing emitted that did not come out of wrap_line",
            why="the width budget depends on the real indentation")
